@@ -4,5 +4,5 @@ CONSTANTS
   LexPop = 3
   PermCases = {3, 4}
   LexCases = 3
-INVARIANTS ResultSound NeverStuck Pressure TournamentExtremes TournamentLaw LexSurvives LexNeverDominated LexDegenerate LexAcceptsExact Emit
+INVARIANTS ResultSound NeverStuck MaximalIsUnbeaten Pressure TournamentExtremes TournamentLaw LexSurvives LexNeverDominated LexDegenerate LexAcceptsExact Emit
 CHECK_DEADLOCK FALSE
